@@ -246,7 +246,7 @@ type c17Edge struct {
 }
 
 type c17Ref struct {
-	nodes map[string]int    // base id -> version (0 for builtins)
+	nodes map[string]int // base id -> version (0 for builtins)
 	kinds map[string]common.SymKind
 	edges map[c17Edge]bool
 }
@@ -325,7 +325,7 @@ func (r *c17Ref) addNode(id string, version int, kind common.SymKind, stats *c17
 
 type c17Stats struct {
 	reinserts, replaceWithDependants, maxCascade int
-	kindRemovalAfterSecondKind                  bool
+	kindRemovalAfterSecondKind                   bool
 	effectiveSteps                               int
 }
 
